@@ -520,3 +520,161 @@ func ReadShallow(r ion.Reader) (*rm.Value, error) {
 	}
 	return ReadValue(r, &ReadCounter{})
 }
+
+// Copy is the README copy loop completed for every type: field name, annotations,
+// then the value (typed null, scalar by type, or container recursively).
+func Copy(r ion.Reader, w ion.Writer, calls *int) error {
+	for r.Next() {
+		*calls += 4
+		fn, err := r.FieldName()
+		if err != nil {
+			return fmt.Errorf("reader FieldName: %w", err)
+		}
+		if fn != nil {
+			if err := w.FieldName(*fn); err != nil {
+				return fmt.Errorf("writer FieldName: %w", err)
+			}
+		}
+		an, err := r.Annotations()
+		if err != nil {
+			return fmt.Errorf("reader Annotations: %w", err)
+		}
+		if len(an) > 0 {
+			if err := w.Annotations(an...); err != nil {
+				return fmt.Errorf("writer Annotations: %w", err)
+			}
+		}
+		t := r.Type()
+		if r.IsNull() {
+			if err := w.WriteNullType(t); err != nil {
+				return fmt.Errorf("writer WriteNullType: %w", err)
+			}
+			continue
+		}
+		*calls += 2
+		switch t {
+		case ion.BoolType:
+			v, err := r.BoolValue()
+			if err != nil {
+				return err
+			}
+			err = w.WriteBool(*v)
+			if err != nil {
+				return err
+			}
+		case ion.IntType:
+			sz, err := r.IntSize()
+			if err != nil {
+				return err
+			}
+			if sz == ion.BigInt {
+				v, err := r.BigIntValue()
+				if err != nil {
+					return err
+				}
+				if err := w.WriteBigInt(v); err != nil {
+					return err
+				}
+			} else {
+				v, err := r.Int64Value()
+				if err != nil {
+					return err
+				}
+				if err := w.WriteInt(*v); err != nil {
+					return err
+				}
+			}
+		case ion.FloatType:
+			v, err := r.FloatValue()
+			if err != nil {
+				return err
+			}
+			if err := w.WriteFloat(*v); err != nil {
+				return err
+			}
+		case ion.DecimalType:
+			v, err := r.DecimalValue()
+			if err != nil {
+				return err
+			}
+			if err := w.WriteDecimal(v); err != nil {
+				return err
+			}
+		case ion.TimestampType:
+			v, err := r.TimestampValue()
+			if err != nil {
+				return err
+			}
+			if err := w.WriteTimestamp(*v); err != nil {
+				return err
+			}
+		case ion.SymbolType:
+			v, err := r.SymbolValue()
+			if err != nil {
+				return err
+			}
+			if err := w.WriteSymbol(*v); err != nil {
+				return err
+			}
+		case ion.StringType:
+			v, err := r.StringValue()
+			if err != nil {
+				return err
+			}
+			if err := w.WriteString(*v); err != nil {
+				return err
+			}
+		case ion.ClobType:
+			v, err := r.ByteValue()
+			if err != nil {
+				return err
+			}
+			if err := w.WriteClob(v); err != nil {
+				return err
+			}
+		case ion.BlobType:
+			v, err := r.ByteValue()
+			if err != nil {
+				return err
+			}
+			if err := w.WriteBlob(v); err != nil {
+				return err
+			}
+		case ion.ListType, ion.SexpType, ion.StructType:
+			if err := r.StepIn(); err != nil {
+				return err
+			}
+			switch t {
+			case ion.ListType:
+				err = w.BeginList()
+			case ion.SexpType:
+				err = w.BeginSexp()
+			default:
+				err = w.BeginStruct()
+			}
+			if err != nil {
+				return err
+			}
+			if err := Copy(r, w, calls); err != nil {
+				return err
+			}
+			if err := r.StepOut(); err != nil {
+				return err
+			}
+			switch t {
+			case ion.ListType:
+				err = w.EndList()
+			case ion.SexpType:
+				err = w.EndSexp()
+			default:
+				err = w.EndStruct()
+			}
+			if err != nil {
+				return err
+			}
+		default:
+			return fmt.Errorf("drive.Copy: unexpected type %v", t)
+		}
+	}
+	return r.Err()
+}
